@@ -308,3 +308,26 @@ func init() {
 		rule("store-process", ruleStoreProcess).
 		rule("R10-http-reply-once", ruleHttpReplyOnce)
 }
+
+func init() {
+	regProp("C13",
+		[]string{
+			"every switch over a closed kernel enum whose default panics is exhaustive (R11)",
+			"decode-nil: a pointer filled by a JSON decoder from stored client bytes (routing tag, receiver, plugin data) is nil-tested before its first dereference and is not the subject of an assertion (JSON `null` ⇒ nil with err == nil)",
+			"union-access: a member of the store Result union is read only where the submission's command list makes it the one that is set, or under a Kind test",
+			"must-helpers: no Must-style helper is applied to run-time data",
+			"request-asserts: every util.Assert over request fields in a request coroutine is implied by what each front end (and the shared search helper, including its cursor path) validates before submitting",
+			"all SQL text is constant (no injection); every submit-able kind is registered; cursors are decoded only with signature verification",
+		},
+		[]string{"oversized bodies, stalls, library internals", "implicit (control-dependent) flows of client data", "assertions inside the store handlers beyond those fed by the checked request fields"}).
+		rule("R11-exhaustive", ruleExhaustive(nil)).
+		rule("R12-decode-nil", ruleDecodeNil).
+		rule("R12-union-access", ruleUnionAccess).
+		rule("R12-must-helpers", ruleMustHelpers).
+		rule("R12-request-asserts", ruleRequestAsserts).
+		rule("R12-cursor", ruleCursorVerified).
+		rule("R12-pb-nil", rulePbNil).
+		rule("R12-unwrap-nil", ruleUnwrapNil).
+		rule("R3-sql-origin", ruleSQLOrigin).
+		rule("R13-front-end-siblings", ruleFrontEndSiblings)
+}
